@@ -14,7 +14,7 @@ import os
 import re
 import subprocess
 
-from vlib import exitkill
+from vlib import exitkill, exitrefuse
 from vlib.common import HARNESS, LEAN_DIR, REPO, VERIF, hexs
 from vlib.seqrun import run_batch
 
@@ -503,7 +503,7 @@ def run_cancel(pdsh, helper, nhosts):
 # --------------------------------------------------------------------------- main
 def run(ctx):
     rng = ctx.rng
-    ctx.gen_consts(["dsh", "relay", "cbuf"])      # relay, cbuf: the end-to-end theorems go through Relay/Model.lean
+    ctx.gen_consts(["dsh", "relay", "cbuf", "exitsites"])      # relay, cbuf: the end-to-end theorems go through Relay/Model.lean
     ctx.lean_build([PROPS, "pdshmodel"])
     ctx.audit(PROPS)
     magic = rc_magic()
@@ -787,6 +787,8 @@ def run(ctx):
                 if sp != "ok":
                     bad.append((s, " ".join(av), ml_, "exit %d" % rc, spl, exit_of(m) == rc))
             report_bad(ctx, bad, bits, "pdsh")
+            # every refusal path of main / opt.c / module loading / dsh()'s prologue (vlib/exitrefuse.py)
+            exitrefuse.run(ctx, repo, bits, dist, cov, distinct)
             # -k through the real binary: the siblings leave start / term traces
             exitkill.run_cli(ctx, pdsh, helper, bits, magic, dist, cov, distinct)
             # F08-CANCELED on the real binary: fanout 1, first target sleeps, ^C then ^Z within a second cancels the
@@ -877,7 +879,9 @@ def replay(ctx, cov, exe, repo, magic, bits, env):
         ctx.log("replay file names no input (theorem/correspondence only): running the whole check instead")
         ctx.replay = None
         return run(ctx)
-    if "k_scn" in case:
+    if "refusal_label" in case:
+        exitrefuse.run(ctx, repo, bits, {}, cov, set(), only=case["refusal_label"])
+    elif "k_scn" in case:
         exitkill.run_scripted(ctx, exe, env, [exitkill.scn_from_json(case["k_scn"])], bits, {}, cov, set())
     elif "k_case" in case:
         c = exitkill.scn_from_json(case["k_case"])
